@@ -68,6 +68,7 @@ type Comp struct {
 	Scalar  bool // ghost scalar
 	IfaceIdx bool // first index is an interface value
 	Repo    bool // field of a struct type defined in the repo module
+	MapValT types.Type // for map value components: Go type of the stored leaf
 }
 
 type epochKind int
@@ -114,6 +115,13 @@ type originInfo struct {
 }
 
 type Enc struct {
+	wsInsStack []ssa.Instruction
+	fvFree    map[*ssa.FreeVar]ssa.Value
+	wsStack   []string
+	wsWhyDone bool
+	fvBind   map[*ssa.Parameter]ssa.Value // write-set traversal: function-typed parameters bound by the current call chain
+	fvActive map[*ssa.Function]int
+	wsCall *ssa.CallCommon // call whose contract write set is being computed (static argument types)
 	lastAllBut map[string]bool
 	origin   map[string]originInfo
 	P        *Program
@@ -170,6 +178,7 @@ func newEnc(P *Program, db *SpecDB, r *Resolver) *Enc {
 		"(forall ((t Int) (p Int)) (! (and (not (= (mkiface t p) 0)) (= (dyntype (mkiface t p)) t) (= (ifacepl (mkiface t p)) p)) :pattern ((mkiface t p))))",
 		"(forall ((p Int)) (! (and (< (arrslice p) 0) (= (rtag (arrslice p)) 2) (= (rootof (arrslice p)) (rootof p))) :pattern ((arrslice p))))",
 		"(forall ((p Int)) (! (=> (> p 0) (= (rootof p) p)) :pattern ((rootof p))))",
+		"(= (rootof 0) 0)",
 		"(forall ((p Int)) (! (=> (>= p 0) (= (rtag p) 0)) :pattern ((rtag p))))",
 	)
 	empty := e.strLit("")
@@ -409,7 +418,9 @@ func (e *Enc) typingFact(t types.Type, v Term, alloc Term) Term {
 		}
 	case *types.Pointer, *types.Map, *types.Chan:
 		if alloc.S != "" {
-			return tLt(v, alloc)
+			// the reference exists already, and so does the object it points into (an interior
+			// pointer is a negative reference whose root is the enclosing object)
+			return tAnd(tLt(v, alloc), tLt(app(SInt, "rootof", v), alloc))
 		}
 	case *types.Interface:
 		// the object an interface value points to exists already
@@ -682,7 +693,9 @@ func (e *Enc) mapKeySort(m *types.Map) Sort {
 
 func (e *Enc) mapValComp(m *types.Map, l leaf) *Comp {
 	ks := e.mapKeySort(m)
-	return e.comp("MV "+typeKey(m)+l.path, arrSort(SInt, arrSort(ks, l.sort)), nil, false)
+	c := e.comp("MV "+typeKey(m)+l.path, arrSort(SInt, arrSort(ks, l.sort)), nil, false)
+	c.MapValT = l.typ
+	return c
 }
 
 func (e *Enc) mapHasComp(m *types.Map) *Comp {
@@ -782,6 +795,18 @@ func (e *Enc) initState() *State {
 
 // compTypingFact: quantified fact that every cell of a fresh component version is well typed.
 func (e *Enc) compTypingFact(c *Comp, v Term, alloc Term) {
+	if strings.HasPrefix(c.Name, "MV ") {
+		// references stored in a map denote objects that exist already
+		if c.MapValT != nil && alloc.S != "" {
+			switch c.MapValT.Underlying().(type) {
+			case *types.Pointer, *types.Map, *types.Chan:
+				_, inner := arrParts(c.Sort)
+				ks, _ := arrParts(inner)
+				e.fact(Term{fmt.Sprintf("(forall ((m Int) (k %s)) (! (and (< (select (select %s m) k) %s) (< (rootof (select (select %s m) k)) %s)) :pattern ((select (select %s m) k))))", ks, v.S, alloc.S, v.S, alloc.S, v.S), SBool})
+			}
+		}
+		return
+	}
 	if c.Scalar || c.ValType == nil {
 		// slice header shapes are asserted as ground facts at every load (shapeFacts)
 		if strings.HasSuffix(c.Name, ".base") && !strings.HasPrefix(c.Name, "MV ") {
